@@ -141,18 +141,32 @@ def bfLine (toks : List String) : String :=
       let big := nm.order == 'b'     -- native = little on this host
       let sp := if nm.kind == 's' then patternOfInt rw (loadS big octs) else loadU big octs
       s!"{hexNat (f octs) (rw / 4)} ## {hexNat sp (rw / 4)}"
+    | some octs, some nm, none =>
+      -- the translator did not deliver this function: the property-level view does not depend on it
+      if octs.length ≠ nm.bits / 8 then "bad-op" else
+      let big := nm.order == 'b'
+      let rw := retWidth nm.bits
+      let sp := if nm.kind == 's' then patternOfInt rw (loadS big octs) else loadU big octs
+      s!"untranslated ## {hexNat sp (rw / 4)}"
     | _, _, _ => "bad-op"
   | ["bf.set", name, hex, _align] =>
     match parseHexNat hex, parseBfName name, setTable.find? (·.1 == name) with
     | some v, some nm, some (_, _pw, ret, f) =>
       let big := nm.order == 'b'
       s!"ret={ret} out={hexOf (f v)} pre=ok ## ret={nm.bits / 8} out={hexOf (store big (nm.bits / 8) v)} pre=ok"
+    | some v, some nm, none =>
+      let big := nm.order == 'b'
+      s!"untranslated ## ret={nm.bits / 8} out={hexOf (store big (nm.bits / 8) v)} pre=ok"
     | _, _, _ => "bad-op"
   | ["bf.swap", name, hex] =>
     match parseHexNat hex, valTable.find? (·.1 == name) with
     | some v, some (_, pw, f) =>
       let bits := (name.drop 7).toString.toNat?.getD 0
       s!"{hexNat (f v) (pw / 4)} ## {hexNat (swap (bits / 8) v) (pw / 4)}"
+    | some v, none =>
+      let bits := (name.drop 7).toString.toNat?.getD 0
+      if bits = 0 then "bad-op" else
+      s!"untranslated ## {hexNat (swap (bits / 8) v) (retWidth bits / 4)}"
     | _, _ => "bad-op"
   | ["bf.inrange", name, hex] =>
     match parseHexNat hex, predTable.find? (·.1 == name) with
@@ -161,6 +175,12 @@ def bfLine (toks : List String) : String :=
       let bits := (name.drop 12).toString.toNat?.getD 0
       let sp := if signed then inRangeS bits (BitVec.ofNat pw v).toInt else inRangeU bits v
       s!"{f v} ## {sp}"
+    | some v, none =>
+      let signed := (name.drop 11).toString.startsWith "s"
+      let bits := (name.drop 12).toString.toNat?.getD 0
+      if bits = 0 then "bad-op" else
+      let sp := if signed then inRangeS bits (BitVec.ofNat (retWidth bits) v).toInt else inRangeU bits v
+      s!"untranslated ## {sp}"
     | _, _ => "bad-op"
   | ["bf.sweep", name, lo, hi] =>
     match lo.toNat?, hi.toNat? with
@@ -234,7 +254,11 @@ def stepLine (_ : Unit) (toks : List String) : Unit × String :=
     match Ty.ofString ty, v.toInt? with
     | some t, some x => let e := encode (t.pattern x); s!"ok:{e.length} out={hexOf e}"
     | _, _ => "bad-op"
-  | t :: rest => if t.startsWith "crc." then crcLine (t :: rest) else if t.startsWith "bf." then bfLine (t :: rest) else "bad-op"
+  | t :: rest => if t.startsWith "crc." then crcLine (t :: rest) else if t.startsWith "bf." then
+      (match t :: rest with
+       | ["bf.setc", _k, name, hex] => bfLine ["bf.set", name, hex, "0"]   -- the same store; the harness passes a literal
+       | toks => bfLine toks)
+    else "bad-op"
   | _ => "bad-op")
 
 end Driver.Codec
